@@ -372,7 +372,7 @@ def render_case(draw):
         fr = min(0.5, max(-0.5, fr))
     return {"count": cnt, "frac": fr, "how": draw(st.sampled_from(["default", "precision", "precision", "format", "str", "array", "alwayssign", "imag", "unit_str", "unit_obj",
                                                                     "unit_built", "alwayssign_default"])),
-            "p": p, "w": draw(st.sampled_from(["", "12", "+", "+20", "025"]))}
+            "p": p, "w": draw(st.sampled_from(["", "12", "+", "+20", "025", "<14", "^15", "*>16", " ", "*^+21"])), "p0": draw(st.integers(0, 5)) == 0}
 
 
 def parse_decimal(s):
@@ -402,9 +402,14 @@ def run_render(case, stt):
         elif how == "alwayssign_default":
             s, digits = p.to_string(alwayssign=True), None
         elif how == "format":
-            if prec == 0:
+            if prec == 0 and not case.get("p0"):
                 prec = 1
+            if case.get("p0"):
+                prec = 0  # '.0f': no decimals at all is a fixed-point format too
             s, digits = format(p, "%s.%df" % (case["w"], prec)), prec
+            check(len(s) >= int("".join(ch for ch in case["w"].lstrip("*<>^+ ") if ch.isdigit()) or 0), "format width: {!r} for spec {!r}", s,
+                  case["w"])
+            s = s.strip("*")
         elif how == "str":
             s, digits = str(p), None
             s = s.replace("cycle", "").strip()
